@@ -183,7 +183,7 @@ def failing_call(rng, g, bounds, model):
         if model.tool:
             steps += ["interlock"] * 3
         step = rng.choice(steps)
-        mode, v = good, 100
+        mode, v = good, rng.choice([100, 250, 999])
         if step == "bad-mode":
             mode = "bogus"
         elif step == "off-mode":
@@ -245,6 +245,11 @@ def failing_call(rng, g, bounds, model):
         elif step == "temp-bounds":
             mode = "wait-for-" + rng.choice(tb)
             kw[rng.choice(["S", "R", "s"])] = rng.choice([500, -10])
+        elif step == "interlock" and rng.random() < 0.6:
+            # rejected by the interlock although every argument (incl. the temperature) is valid
+            mode = rng.choice(["wait-for-bed", "wait-for-hotend", "wait-for-chamber"])
+            kw[rng.choice(["S", "R"])] = rng.choice([35, 60, 115])
+            step = "interlock+temperature"
         return op, (mode,), kw, op, step
     if op == "pausestop":
         name = rng.choice(["pause", "stop", "wait"])
